@@ -987,7 +987,7 @@ def run_pert(chunk, ctx):
                                     raise RuntimeError("single-tip displacement left undecided: %s" % nwk(sn))
                                 base = {"tree": sn, "exact": dex, "tip": list(lp), "delta": sign * delta, "hmap": hm}
                                 for p in PREC_PERT:
-                                    fns = AGE_FNS[:1] if p not in (DEFAULT, P10) else ("calc_node_ages", "node_ages", "internal_node_ages")
+                                    fns = AGE_FNS[:1] if (p not in (DEFAULT, P10) or n >= 6) else ("calc_node_ages", "node_ages", "internal_node_ages")
                                     for fn in fns:
                                         ctx.case(("ages", sn, repr(p), None, fn), nt)
                                         ctx.count("displacement_decisions")
@@ -996,12 +996,12 @@ def run_pert(chunk, ctx):
                                     ctx.case(("ages", sn, DEFAULT, force, "calc_node_ages"), nt)
                                     ctx.count("forced_age_calls")
                                     check_ages(dict(base, kind="ages", p=DEFAULT, force=force, fn="calc_node_ages"), ctx)
-                                for p in ((DEFAULT, P10, 1) if n <= 4 else (P10, 1)):
+                                for p in ((DEFAULT, P10, 1) if n <= 4 else ((P10, 1) if n == 5 else (P10,))):
                                     ctx.case(("setlen", sn, repr(p)), nt)
                                     ctx.count("restore_calls")
                                     check_setlen(dict(base, kind="setlen", src="calc", wipe="none", kw="default", p=p), ctx)
                                 if n >= 3 and is_binary_sn(sn):
-                                    for prec in ((DEFAULT, P10, 0, None) if n <= 4 else (DEFAULT, P10)):
+                                    for prec in ((DEFAULT, P10, 0, None) if n <= 4 else ((DEFAULT, P10) if n == 5 else (P10,))):
                                         ctx.case(("gamma", sn, repr(prec), "module"), nt)
                                         ctx.count("gamma_calls")
                                         check_gamma(dict(base, kind="gamma", prec=prec, via="module"), ctx)
